@@ -41,24 +41,48 @@ structure BSt where
   inflight : Option (List (Nat × B)) := none  -- the list handed to the awaited update callback
   hw : Nat → Option B := fun _ => none        -- what the platform has received
   last : Nat → Option (B × Nat) := fun _ => none   -- `last_state`
+  maxFade : Nat := 0                          -- `get_max_fade_ms()` of the lights (0: the hardware cannot fade)
+  cached : Nat → Bool := fun _ => false       -- `_last_brightness` is set: the light answered "done" since its last `set_fade`
+  maxBatch : Nat := 2                         -- `max_batch_size`
+  tol : Nat := 1                              -- `max_fade_tolerance`
+  accFade : Nat := 0                          -- `common_fade_ms` of the list being collected
+  inflightFade : Nat := 0                     -- … of the list handed to the callback
+  taken : List Nat := []                      -- ghost: the dirty set as the sender took it (this round)
+  roundDone : List (Nat × Bool) := []         -- ghost: lights computed in this round, in order, with "skipped"
+  roundComp : List (Nat × Nat) := []          -- ghost: the lights queued in this round with their own fade duration
+  roundSent : List (List (Nat × B)) := []     -- ghost: the lists handed to the callback in this round
 
 def insertSet (l : Nat) : List Nat → List Nat
   | [] => [l]
   | x :: r => if l = x then x :: r else if l < x then l :: x :: r else x :: insertSet l r
 
-/-- `get_fade_and_brightness(now)` with `max_fade_ms = 0`: `(brightness, done)` -/
-def brightnessAt (f : Fade) (now : Nat) : B × Bool :=
+/-- `get_fade_and_brightness(now)` with `max_fade_ms = m`: `(brightness, done)`.  A fade that ends within `m` is handed
+over as its target (done); otherwise the hardware is told the brightness the fade has `m` from now -/
+def brightnessAt (f : Fade) (now m : Nat) : B × Bool :=
   match f.tt with
   | some tt =>
-    if now < tt then
-      (((((f.sb : Int) * ((tt : Int) - f.st) + ((f.tb : Int) - f.sb) * ((now : Int) - f.st))).toNat, 255 * (tt - f.st)), false)
+    if now + m < tt then
+      (((((f.sb : Int) * ((tt : Int) - f.st) + ((f.tb : Int) - f.sb) * ((now : Int) + m - f.st))).toNat, 255 * (tt - f.st)), false)
     else ((f.tb, 255), true)
   | none => ((f.tb, 255), true)
+
+/-- the fade duration that goes with `brightnessAt`: `m` for an intermediate step, else the remaining time -/
+def fadeAt (f : Fade) (now m : Nat) : Nat :=
+  match f.tt with
+  | some tt => if now + m < tt then m else tt - now
+  | none => 0
 
 /-- `set_fade` on light `l` = `mark_dirty` + remember the fade -/
 def mark (s : BSt) (l : Nat) (f : Fade) : BSt :=
   { s with fade := upd s.fade l f, ver := upd s.ver l (s.ver l + 1), dirty := insertSet l s.dirty, changed := true,
-           sched := s.sched.filter (fun e => decide (e.2 ≠ l)) }
+           sched := s.sched.filter (fun e => decide (e.2 ≠ l)), cached := upd s.cached l false }
+
+/-- the fade duration `get_fade_and_brightness` answers for light `l` as the code is: once a light has answered "done" its
+target is cached (`_last_brightness`) and a repeated call answers `(target, 0 ms, done)` — also while the hardware fade
+it handed over is still running (observed as D31, outside the property); a cached brightness of 0 is falsy in Python and
+is recomputed.  The brightness itself is the same with and without the cache. -/
+def fdOf (s : BSt) (l : Nat) : Nat :=
+  if (s.cached l && decide ((s.fade l).tb ≠ 0)) = true then 0 else fadeAt (s.fade l) s.now s.maxFade
 
 /-- one iteration of `_schedule_updates`: due lights become dirty again -/
 def schedfire (s : BSt) : BSt :=
@@ -67,7 +91,10 @@ def schedfire (s : BSt) : BSt :=
 
 /-- the sender takes the dirty set when it has nothing left from the previous round -/
 def take (s : BSt) : BSt :=
-  if s.pending = [] ∧ s.acc = [] ∧ s.changed = true then { s with pending := s.dirty, dirty := [], changed := false } else s
+  if s.pending = [] ∧ s.acc = [] ∧ s.changed = true then
+    { s with pending := s.dirty, dirty := [], changed := false, taken := s.dirty, roundDone := [], roundComp := [],
+             roundSent := [] }
+  else s
 
 inductive CRes | skipped | queued (b : B) (done : Bool)
 
@@ -79,28 +106,34 @@ def compute (s0 : BSt) (l : Nat) : Option (BSt × CRes) :=
   | [] => none
   | x :: rest =>
     if x ≠ l then none else
-    let (b, done) := brightnessAt (s.fade l) s.now
-    let s1 := { s with pending := rest }
+    let (b, done) := brightnessAt (s.fade l) s.now s.maxFade
+    let fd := fdOf s l
+    let s1 := { s with pending := rest, cached := if done then upd s.cached l true else s.cached }
+    let q : BSt := { s1 with last := upd s.last l (some (b, s.now + fd)), acc := s.acc ++ [(l, b)],
+                             accFade := if s.acc = [] then fd else s.accFade,
+                             roundDone := s.roundDone ++ [(l, false)], roundComp := s.roundComp ++ [(l, fd)] }
     if done then
       match s.last l with
       | some (b0, t0) =>
-        if eqB b0 b ∧ t0 < s.now ∧ s.acc = [] then some (s1, .skipped)
-        else some ({ s1 with last := upd s.last l (some (b, s.now)), acc := s.acc ++ [(l, b)] }, .queued b true)
-      | none => some ({ s1 with last := upd s.last l (some (b, s.now)), acc := s.acc ++ [(l, b)] }, .queued b true)
+        if eqB b0 b ∧ t0 < s.now + fd ∧ s.acc = [] then some ({ s1 with roundDone := s.roundDone ++ [(l, true)] }, .skipped)
+        else some (q, .queued b true)
+      | none => some (q, .queued b true)
     else
-      some ({ s1 with sched := s.sched ++ [(s.now, l)], last := upd s.last l (some (b, s.now)), acc := s.acc ++ [(l, b)] },
-            .queued b false)
+      some ({ q with sched := s.sched ++ [(s.now + fd, l)] }, .queued b false)
 
 /-- `await self.update_callback(list)` starts -/
 def flush (s : BSt) : Option BSt :=
-  if s.inflight.isSome ∨ s.acc = [] then none else some { s with inflight := some s.acc, acc := [] }
+  if s.inflight.isSome ∨ s.acc = [] then none
+  else some { s with inflight := some s.acc, acc := [], inflightFade := s.accFade, roundSent := s.roundSent ++ [s.acc] }
 
 /-- the callback starts with everything but the light computed last: that light did not fit (batch size, fade
 tolerance) and opens the next list -/
 def flushKeep (s : BSt) : Option BSt :=
   if s.inflight.isSome then none else
   match s.acc.reverse with
-  | x :: y :: r => some { s with inflight := some (y :: r).reverse, acc := [x] }
+  | x :: y :: r => some { s with inflight := some (y :: r).reverse, acc := [x], inflightFade := s.accFade,
+                                 accFade := (s.roundComp.getLast?.map (·.2)).getD 0,
+                                 roundSent := s.roundSent ++ [(y :: r).reverse] }
   | _ => none
 
 def applyP (hw : Nat → Option B) : List (Nat × B) → Nat → Option B
@@ -112,6 +145,26 @@ def delivered (s : BSt) : Option BSt :=
   match s.inflight with
   | some p => some { s with hw := applyP s.hw p, inflight := none }
   | none => none
+
+/-! ### the grouping of one round (`_send_updates` / `_send_update_batch`) as a pure function
+
+`xs` = the lights queued in a round, in order, each with its own fade duration.  A list is closed when the next light is
+not the successor of the previous one (`is_successor_of`: here the next number), when it is full, or when the next
+light's fade differs from the list's common fade by the tolerance or more.  `cur` is the open list, newest first. -/
+def group (mb tol : Nat) : List (Nat × Nat) → List (Nat × Nat) → Nat → List (List (Nat × Nat))
+  | [], [], _ => []
+  | [], y :: cur, _ => [(y :: cur).reverse]
+  | x :: r, [], _ => group mb tol r [x] x.2
+  | x :: r, y :: cur, common =>
+    if x.1 = y.1 + 1 ∧ (common < x.2 + tol ∧ x.2 < common + tol) ∧ (y :: cur).length < mb
+    then group mb tol r (x :: y :: cur) common
+    else (y :: cur).reverse :: group mb tol r [x] x.2
+
+/-- does the round so far (callbacks made + the open list) agree with the grouping function? -/
+def roundAgrees (s : BSt) : Bool :=
+  let want := (group s.maxBatch s.tol s.roundComp [] 0).map (fun g => g.map (·.1))
+  let have_ := (s.roundSent ++ (if s.acc = [] then [] else [s.acc])).map (fun g => g.map (·.1))
+  decide (want = have_)
 
 inductive Op
   | adv (t : Nat)
@@ -149,6 +202,9 @@ def showSet (l : List Nat) : String := String.join (l.map (fun x => " " ++ toStr
 def driverStep (s : BSt) (ws : List String) : BSt × String :=
   match ws.map (fun w => (w, w.toNat?)) with
   | [("reset", _)] => ({}, "ok")
+  | [("reset", _), (_, some m), (_, some mb), (_, some tol)] => ({ maxFade := m, maxBatch := mb, tol := tol }, "ok")
+  | [("roundok", _)] => (s, if roundAgrees s then "ok" else
+      "grouping-differs want" ++ String.join ((group s.maxBatch s.tol s.roundComp [] 0).map (fun g => " [" ++ showSet (g.map (·.1)) ++ " ]")))
   | [("adv", _), (_, some t)] => if s.now ≤ t then ({ s with now := t }, "ok") else (s, "bad-op")
   | [("mark", _), (_, some l), (_, some sb), (_, some st), (_, some tb), (tt, ttn)] =>
     if tt = "-" then (mark s l ⟨sb, st, tb, none⟩, "ok")
@@ -160,15 +216,16 @@ def driverStep (s : BSt) (ws : List String) : BSt × String :=
     match compute s l with
     | none => (s, "not-enabled")
     | some (s', .skipped) => (s', "skip")
-    | some (s', .queued b d) => (s', "q " ++ showB b ++ (if d then " 1" else " 0"))
+    | some (s', .queued b d) => (s', "q " ++ showB b ++ (if d then " 1 " else " 0 ") ++
+        toString ((s'.roundComp.getLast?.map (·.2)).getD 0))
   | [("flush", _)] =>
     match flush s with
     | none => (s, "not-enabled")
-    | some s' => (s', "f" ++ showP (s'.inflight.getD []))
+    | some s' => (s', "f " ++ toString s'.inflightFade ++ showP (s'.inflight.getD []))
   | [("flushkeep", _)] =>
     match flushKeep s with
     | none => (s, "not-enabled")
-    | some s' => (s', "f" ++ showP (s'.inflight.getD []))
+    | some s' => (s', "f " ++ toString s'.inflightFade ++ showP (s'.inflight.getD []))
   | [("delivered", _)] =>
     match delivered s with
     | none => (s, "not-enabled")
